@@ -22,27 +22,72 @@ RUNTIME_PATCHES = [
 PROP_KINDS = {"C01": "c01-", "C02": "c02-", "C11": "c11-"}
 
 
-def regenerate(ctx):
-    """Tie 1: extract the two guards from the working tree's sched.go (go/ast)."""
+# Behavioural probe for the two variant parameters of the model: the F12a ("duplicate expired event deletes the NEW
+# runner's entry") and F12b ("grant after unload") witness schedules are run on the REAL scheduler of the tree; the
+# monitors that fire on them say which variant the tree implements.  Header defSess 2 = F12a family, 1 = F12b family.
+PROBE_F12A = [
+    "sched-trace 0 8 2 1 1 | submit 0 0 L | submit 0 0 L | loaddone 0 0 | done 1 | submit 0 1 0 | submit 0 0 S | loaddone 1 1 | advance 20 | loaddone 2 1 | done 2 | advance 150",
+    "sched-trace 0 8 2 1 1 | submit 0 0 - | submit 0 0 - | done 0 | loaddone 0 0 | submit 0 1 - | done 1 | submit 0 0 - | loaddone 1 1 | advance 20 | loaddone 2 1 | done 2 | advance 20 | done 3 | advance 4000000 | advance 20",
+    "sched-trace 0 8 2 0 1 | submit 1 0 L | submit 1 0 L | loaddone 0 0 | done 1 | submit 1 1 0 | submit 1 0 S | loaddone 1 1 | advance 20 | loaddone 2 1 | done 2 | advance 150",
+]
+PROBE_F12B = [
+    "sched-trace 0 8 1 1 1 | submit 0 0 S | loaddone 0 1 | done 0 | ping 0 3 | submit 0 0 - | advance 60 | pingdone 0 1 | loaddone 1 1 | done 1 | advance 200",
+    "sched-trace 0 8 1 1 1 | submit 0 0 L | loaddone 0 1 | done 0 | ping 0 3 | submitr 0 0 - | unload 0 | pingdone 0 1 | loaddone 1 1 | done 1 | advance 200",
+    "sched-trace 0 8 1 0 1 | submit 2 1 S | loaddone 0 1 | done 0 | ping 0 3 | submit 2 1 - | advance 60 | pingdone 0 1 | loaddone 1 1 | done 1 | advance 200",
+]
+F12A_KINDS = {"c11-two-per-model", "c01-closed-in-use", "c01-double-close", "c11-over-limit", "c02-not-drained"}
+F12B_KINDS = {"c01-grant-closed", "c01-closed-in-use"}
+
+
+def probe(ctx, overlay):
+    """Run the witness schedules on the real scheduler. Returns (ran, guardDelete, recheckGrant, l2 failures)."""
+    rp = os.path.join(ctx.tmp, "probe-scripts.txt")
+    with open(rp, "w") as f:
+        f.write("\n".join(PROBE_F12A + PROBE_F12B) + "\n")
+    rc, out, pdir = ctx.go_test("./server/", overlay, "^TestVerifSched$", env={"VERIF_REPLAY": rp}, timeout=900)
+    ops = os.path.join(pdir, "ops.txt")
+    lines = [l for l in open(ops)] if os.path.exists(ops) else []
+    ran = rc == 0 and len(lines) == len(PROBE_F12A) + len(PROBE_F12B)
+    fails = ctx.l2(pdir)
+    fam = lambda f: (f["case"].split("|")[0].split() + ["", "", "", ""])[3]
+    bad_a = sorted({f["kind"] for f in fails if fam(f) == "2" and f["kind"] in F12A_KINDS})
+    bad_b = sorted({f["kind"] for f in fails if fam(f) == "1" and f["kind"] in F12B_KINDS})
+    ctx.coverage["variant_probe"] = {"ran": ran, "schedules": len(lines), "f12a_kinds": bad_a, "f12b_kinds": bad_b}
+    return ran, ran and not bad_a, ran and not bad_b, fails, lines
+
+
+def regenerate(ctx, probed=None):
+    """Tie 1: which variant of the model the tree implements = behaviour on the witness schedules (probe) AND the go/ast
+    extractor does not see an unguarded delete / a missing re-check; structural facts (atomic regions) by go/ast."""
     env = dict(os.environ)
     env.update({"SCHED_GO": os.path.join(core.REPO, "server", "sched.go"), "GOFLAGS": "-mod=mod", "GOPROXY": "off"})
     p = subprocess.run(["go", "run", os.path.join(core.ROOT, "harness", "cmd", "schedfacts", "main.go")],
                        cwd="/", env=env, stdout=subprocess.PIPE, stderr=subprocess.STDOUT, text=True)
     facts = dict(re.findall(r"(\w+)=(\w+)", p.stdout))
-    ok = p.returncode == 0 and "guardDelete" in facts
-    gd = "true" if facts.get("guardDelete") == "true" else "false"
-    rg = "true" if facts.get("recheckGrant") == "true" else "false"
+    ok = p.returncode == 0 and "guardDeleteAst" in facts
+    ran, pgd, prg = (probed or (False, False, False))[:3]
+    gda, rga = facts.get("guardDeleteAst", "unknown"), facts.get("recheckGrantAst", "unknown")
+    b = lambda x: "true" if x else "false"
+    gd = b(ok and pgd and gda != "unguarded")
+    rg = b(ok and prg and rga != "absent")
     de = facts.get("deletesElsewhere", "99") if ok else "99"
     ea = "true" if facts.get("expiredAtomic") == "true" else "false"
     um = "true" if facts.get("unloadUnderLoadedMu") == "true" else "false"
     eva = "true" if facts.get("evictAtomic") == "true" else "false"
     enq = "true" if facts.get("enqueueNonBlocking") == "true" else "false"
     wup = "true" if facts.get("waitUnloadPure") == "true" else "false"
-    body = ("-- REGENERATED on every run by vlib/checks/sched_common.py (harness/cmd/schedfacts) from /repo's sched.go.\n"
+    caps = [facts.get("cap_" + c, "?") for c in ("pendingReqCh", "finishedReqCh", "expiredCh", "unloadedCh")]
+    capq = b(ok and all(c == "envconfigMaxQueue" for c in caps))
+    arms = facts.get("unloadedChRecvArms", "0") if ok else "0"
+    body = ("-- REGENERATED on every run by vlib/checks/sched_common.py (harness/cmd/schedfacts + behavioural probe) from /repo's sched.go.\n"
             "import OllamaVerif.Model.Sched\n"
             "namespace OllamaVerif.Generated.C01\n"
             "open OllamaVerif.Sched\n"
-            f"/-- extractor output: {p.stdout.strip().replace(chr(10), '; ')[:300]} -/\n"
+            f"/-- extractor output: {p.stdout.strip().replace(chr(10), '; ')[:700]} -/\n"
+            "def extractorOutput : Unit := ()\n"
+            "/-- the variant of the model the tree implements: each flag = (the real scheduler stays inside the property on the\n"
+            "    F12a resp. F12b witness schedules) AND (go/ast does not find an unguarded delete resp. a missing re-check);\n"
+            f"    probe ran={ran} guardDelete={pgd} recheckGrant={prg}; go/ast guardDelete={gda} recheckGrant={rga} -/\n"
             f"def treeVariant : Variant := ⟨{gd}, {rg}⟩\n"
             f"def deletesElsewhere : Nat := {de}\n"
             "/-- the expired handler tests refCount and unloads in ONE critical section of refMu (no check-then-act window) -/\n"
@@ -56,12 +101,27 @@ def regenerate(ctx):
             f"def enqueueNonBlocking : Bool := {enq}\n"
             "/-- the `<-s.unloadedCh` arms of processPending only log and continue (`pDrainUnloaded` / `pWaitUnload` change nothing else) -/\n"
             f"def waitUnloadPure : Bool := {wup}\n"
+            "/-- number of selects of processPending that receive from unloadedCh (the idle select = `pDrainUnloaded`, the\n"
+            "    wait-for-unload select = `pWaitUnload`) -/\n"
+            f"def unloadedChRecvArms : Nat := {arms}\n"
+            "/-- InitScheduler makes all four scheduler channels with capacity envconfig.MaxQueue() (the model's `maxQueue`) -/\n"
+            f"def chanCapsAreMaxQueue : Bool := {capq}\n"
             "end OllamaVerif.Generated.C01\n")
     core.write_generated("OllamaVerif/Generated/C01_SchedFacts.lean", body)
     ctx.coverage["tree_variant"] = {"guardDelete": gd, "recheckGrant": rg, "expiredAtomic": ea,
                                     "unloadUnderLoadedMu": um, "evictAtomic": eva, "enqueueNonBlocking": enq,
-                                    "waitUnloadPure": wup, "extractor_ok": ok}
+                                    "waitUnloadPure": wup, "extractor_ok": ok, "guardDeleteAst": gda, "recheckGrantAst": rga,
+                                    "decided_by": "probe+go/ast" if (gda, rga) == ("guarded", "present") else "probe (go/ast inconclusive)",
+                                    "unloadedChRecvArms": arms, "chanCapsAreMaxQueue": capq,
+                                    "inlinedHelpers": facts.get("inlinedHelpers", "")}
     return "good" if (gd, rg) == ("true", "true") else "pinned" if (gd, rg) == ("false", "false") else None
+
+
+def regenerate_probed(ctx):
+    """Entry point for other checks that import Tie.C01 (C15): overlay + probe + regenerate. Returns the variant name."""
+    overlay = dict(OVERLAY)
+    overlay.update(runtime_overlay(ctx))
+    return regenerate(ctx, probe(ctx, overlay))
 
 
 def runtime_overlay(ctx):
@@ -84,14 +144,15 @@ def runtime_overlay(ctx):
 
 
 def run_sched(ctx, prop, modules, theorems):
-    variant = regenerate(ctx)
-    ctx.oracle_name = "C01"
-    ctx.lean_check(modules, theorems)
     prefix = PROP_KINDS[prop]
     overlay = dict(OVERLAY)
     # absolute paths: core.overlay_json joins with REPO, os.path.join keeps an absolute second argument
     for k, v in runtime_overlay(ctx).items():
         overlay[k] = v
+    probed = probe(ctx, overlay)
+    variant = regenerate(ctx, probed)
+    ctx.oracle_name = "C01"
+    ctx.lean_check(modules, theorems)
     env = {"VERIF_N": ctx.scale(160, 4000), "VERIF_CORPUS": os.path.join(core.ROOT, "corpus", "C01")}
     run = "^(TestVerifSched|TestVerifSchedWitness|TestVerifSchedDeadlockCorpus)$"
     if ctx.replay:
@@ -101,11 +162,13 @@ def run_sched(ctx, prop, modules, theorems):
     if rc != 0:
         ctx.violation("driver-failed", "", out[-1500:], no_input=True)
     ctx.read_stats(outdir)
-    failures = ctx.l2(outdir)
+    failures = ctx.l2(outdir) + (probed[3] if not ctx.replay else [])
     wedged = {f["case"].strip() for f in failures if f["kind"].startswith("c02-deadlock")}
     # ---- L1: trace conformance (the model must be able to reproduce every observation)
     ops = os.path.join(outdir, "ops.txt")
     lines = [l.rstrip("\n") for l in open(ops)] if os.path.exists(ops) else []
+    if not ctx.replay:
+        lines += [l.rstrip("\n") for l in probed[4]]       # the probe's traces must conform to the model too
     if not lines:
         ctx.l1_disagreements.append({"label": "L1", "op": "<driver produced no traces>", "impl": "", "model": ""})
     vname = variant or "good"
